@@ -8,6 +8,6 @@ export VERIF_QUICK_SCALE=${VERIF_QUICK_SCALE:-0.4}
 for name in $names; do
   own=${name%%-*}
   tmp=$(mktemp -d); cp seeded/$name/patch.diff seeded/$name/demo.py seeded/$name/meta.json $tmp/
-  out=$(tools/mutant.py $tmp $name $own $flag 2>&1); rm -rf $tmp
+  out=$(tools/mutant.py $tmp $name $own $flag --no-save 2>&1); rm -rf $tmp
   echo "$name $(echo "$out" | grep -A3 '"caught_by"' | tr -d '\n ' | cut -c1-80)"
 done
